@@ -20,7 +20,11 @@ Cases with "mut": 1 MODIFY the network between the calls (kind "mut" / "mut-floa
     ["N", v, x, y]             addNode(Node(v, (x,y)))
     ["O", id, o]               getEdge(id).orientation = o   (generated only when the finding ORI_FROZEN is listed, see classify)
 "late": nodes that the build does not register (no initial edge): they enter the network by an E / N op. The oracle replays
-the modifications on its own copy of the content (`Content`) and judges every query against the content of THAT moment."""
+the modifications on its own copy of the content (`Content`) and judges every query against the content of THAT moment.
+
+Cases with "fam": 1 (kinds fam / fam-ex) are FAMILIES of Network objects that share their Node and Edge objects: "fops" =
+[[k, op], …], op being a call on network k, ["X", s, cut] = nets.append(nets[k].sub_network(s, cut)) (result kept and used).
+`fam_split` turns a family into one "mut" session per network; model, comparison and oracle run per network (see there)."""
 import itertools, os, tempfile
 from fractions import Fraction
 from engine import Prop, fbits, bitsf
@@ -591,6 +595,221 @@ def random_mut_ops(rng, case, fl=False, with_ori=False):
     return ops
 
 
+# ------------------------------------------------------------------------------------ families of networks
+# Several Network objects that share their Node and Edge objects: `sub = net.sub_network(s, cut)` fills a new Network() with
+# the parent's own Edge objects (`sub_net.addEdge(e, e.source, e.target)`), and the caller keeps and uses both.
+# case: a graph with geometry as above (network 0) and "fops": [[k, op], …], op on network k =
+#    a routing call P / D / F / B of the session forms · ["W", id, w, how] (the weight of that Edge OBJECT) ·
+#    ["X", s, cut]   nets.append(nets[k].sub_network(s, cut))   (TOPOLOGIC mode: a search from s without target, then the
+#                    edges whose two ends were settled are added, in the parent's edge order)
+# Every network is judged on ITS OWN content (the edges it holds): what the other networks of the family were asked in
+# between never matters to the statement. Which edges sub_network keeps is outside the statement: the oracle reads the
+# extract's node and edge ids off the returned object; the model side predicts them (both ends within the cut-off).
+def fam_split(case, reported=None):
+    """the family as one session per network: (members, where, conts) — conts[k] = the Content of network k after all the calls.
+    members[k] = a case of kind "mut" (build + the calls made on network k, `sub_network` being the `run_routing_forward`
+    it performs), None for an extraction that raised; where[j] = [(k, index in members[k]["ops"]), …] for the j-th fop, the
+    addressed network first.
+    reported = None: the extracts' contents are predicted from the case alone (what the model side runs); a weight
+    assignment reaches every network holding that Edge object (the library as it is).
+    reported = [per X op: {"nodes", "edges"} | None]: the extracts hold what the real objects were seen to hold (the oracle);
+    a network that shares an Edge object whose weight was assigned THROUGH ANOTHER network is no longer judged ("blind_from":
+    nothing is stated about whether it sees the new weight).
+    "skip": indices of run_routing_backward calls made when the routing attributes on the (shared) Node objects were last
+    written by a search of ANOTHER network (for the oracle also: by sub_network itself): nothing is stated about them."""
+    n = case["n"]
+    base = nc.explicit({k: v for k, v in case.items() if k not in ("fops", "fam")})
+    base.update(kind="fam-member", mut=1, ops=[])
+    members = [base]
+    conts = [Content(base)]
+    where = []
+    owner = None
+    nx = 0
+    for (k, op) in case["fops"]:
+        if not (0 <= k < len(members)) or members[k] is None:
+            where.append([])
+            if op[0] == "X":
+                members.append(None)
+                conts.append(None)
+                nx += 1
+            continue
+        M, C = members[k], conts[k]
+        if op[0] == "W":
+            spots = []
+            for j in [k] + [j for j in range(len(members)) if j != k]:
+                if members[j] is None or conts[j].edge(op[1]) is None:
+                    continue
+                if reported is not None and j != k:
+                    members[j].setdefault("blind_from", len(members[j]["ops"]))
+                    continue
+                conts[j].apply(op)
+                members[j]["ops"].append(list(op))
+                spots.append((j, len(members[j]["ops"]) - 1))
+            where.append(spots)
+        elif op[0] == "X":
+            s = idx(op[1])
+            M["ops"].append(["F", op[1], "-", op[2], 0])
+            where.append([(k, len(M["ops"]) - 1)])
+            # the model side: sub_network is coded as a search on the parent, whose flags a backward pass may read. The
+            # oracle: that sub_network leaves routing attributes on the parent is not part of any statement — a backward
+            # pass right after it is compared with the model, never judged
+            owner = k if reported is None else None
+            rec = None
+            if reported is not None:
+                rec = reported[nx] if nx < len(reported) else None
+            nx += 1
+            if s not in C.pos or (reported is not None and rec is None):
+                members.append(None)
+                conts.append(None)
+                continue
+            if reported is None:
+                d, c = C.d, cutval(op[2])
+                keep = [e for e in C.edges if within(d[s][e[1]], c) and within(d[s][e[2]], c)]
+            else:
+                keep = [C.edge(i) for i in rec["edges"] if isinstance(i, int) and C.edge(i) is not None]
+            sub = {"kind": "fam-member", "mut": 1, "n": n, "order": [], "build": "plain", "parent": k,
+                   "edges": [list(e) for e in keep], "pos": [list(C.pos.get(v, case["pos"][v])) for v in range(n)],
+                   "lines": [[list(q) for q in C.lines[e[0]]] for e in keep], "ops": []}
+            for key in ("ids", "af", "scribble"):
+                if key in case:
+                    sub[key] = case[key]
+            if "blind_from" in M:
+                sub["blind_from"] = 0
+            members.append(sub)
+            conts.append(Content(sub))
+        else:
+            M["ops"].append(list(op))
+            where.append([(k, len(M["ops"]) - 1)])
+            if op[0] == "B":
+                if owner != k:
+                    M.setdefault("skip", []).append(len(M["ops"]) - 1)
+            else:
+                owner = k
+    return members, where, conts
+
+
+def fam_valid(case):
+    """every op addresses a network that exists at that point"""
+    cnt = 1
+    for (k, op) in case["fops"]:
+        if not 0 <= k < cnt:
+            return False
+        if op[0] == "X":
+            cnt += 1
+    return True
+
+
+def fam_project(case, out, members, where):
+    """the implementation's flat record of a family run, as one impl output per network (shape of P.impl on members[k])"""
+    res = [None if M is None else {"ops": [None] * len(M["ops"]), "dict": out["dicts"][k] if k < len(out["dicts"]) else [],
+                                   "net": out["nets"][k] if k < len(out["nets"]) else None} for k, M in enumerate(members)]
+    for (k_op, item, spots) in zip(case["fops"], out["fam"], where):
+        for pos_, (k, i) in enumerate(spots):
+            if k_op[1][0] == "X":
+                it = {"op": "F", "err": "key"} if "err" in item else {"op": "F"}
+            elif k_op[1][0] == "W":
+                it = item if pos_ == 0 else {"op": "W", "r": "ok"}
+            else:
+                it = item
+            res[k]["ops"][i] = it
+    return res
+
+
+def random_family(rng, geometry):
+    """a network (a chain / tree skeleton plus some more edges, so that a cut-off extract is a proper part of it), extracts of
+    it and of extracts, kept; paths and distances asked on all of them in any order — most often on the PARENT after an
+    extraction, for pairs whose route runs through the extracted part; now and then a weight is assigned in between"""
+    n = rng.randint(3, 8)
+    perm = list(range(n)); rng.shuffle(perm)
+    style = rng.random()
+    edges = []
+    wgt = lambda: rng.choice([0, 1, 1, 1, 2, 2, 3, 5, "1/2", "3/2"])
+    ori = lambda: rng.choice([-1, 0, 0, 0, 0, 1])
+    for i in range(1, n):
+        a, b = (perm[i - 1] if style < 0.6 else perm[rng.randrange(i)]), perm[i]
+        if rng.random() < 0.3:
+            a, b = b, a
+        edges.append([len(edges), a, b, wgt(), ori()])
+    for _ in range(rng.randint(0, 4)):
+        edges.append([len(edges), rng.randrange(n), rng.randrange(n), wgt(), ori()])
+    order = list(range(n)); rng.shuffle(order)
+    case = {"kind": "fam", "fam": 1, "n": n, "order": order, "edges": edges, "fops": []}
+    geometry(case)
+    fops = case["fops"]
+    form = lambda v: rng.choice(["", "", "", "o", "f"]) + str(v)
+    ud = lambda: 1 if rng.random() < 0.2 else 0
+
+    def query(k, M, C):
+        nodes = list(C.order)
+        if not nodes:
+            return
+        d = C.d
+        reach = [(s, t) for s in nodes for t in nodes if s != t and d[s][t] is not None]
+        s, t = rng.choice(reach) if reach and rng.random() < 0.85 else (rng.choice(nodes), rng.choice(nodes))
+        cuts = [nc.tok(c) for c in nc.cuts_for(d) if c >= 0] or ["0"]
+        cut = "none" if rng.random() < 0.75 else rng.choice(cuts)
+        r = rng.random()
+        if r < 0.6:
+            fops.append([k, ["P", form(s), form(t), cut, ud()]])
+        elif r < 0.7:
+            fops.append([k, ["D", form(s), rng.choice([form(t), "-"]), cut, ud()]])
+        elif r < 0.85:
+            fops.append([k, [rng.choice("FD"), form(s), rng.choice([form(t), "-", "-"]), cut, ud()]])
+            for _ in range(rng.randint(1, 2)):
+                fops.append([k, ["B", form(rng.choice([t] + nodes))]])
+        else:
+            fops.append([k, ["P", form(s), form(t), "none", 0]])
+            fops.append([k, ["P", form(t), form(s), "none", 0]])
+
+    for step in range(rng.randint(3, 10)):
+        members, _, conts = fam_split(case)
+        live = [k for k, C in enumerate(conts) if C is not None and C.order]
+        if not live:
+            break
+        r = rng.random()
+        nx = sum(1 for _, o in fops if o[0] == "X")
+        if (r < 0.3 or step == 0) and nx < 3:
+            k = 0 if rng.random() < 0.7 else rng.choice(live)
+            C = conts[k]
+            s = rng.choice(C.order)
+            ds = sorted({x for x in C.d[s] if x is not None})
+            c = rng.choice(ds + [ds[-1] + 1, ds[len(ds) // 2] + Fraction(1, 2)]) if rng.random() < 0.85 else None
+            fops.append([k, ["X", form(s), "none" if c is None else nc.tok(c)]])
+            if rng.random() < 0.3:      # the path to a node of the extract, read off the flags sub_network left on the parent
+                fops.append([k, ["B", form(rng.choice(C.order))]])
+            for _ in range(rng.randint(1, 3)):      # then the parent is asked again
+                query(k, members[k], C)
+        elif r < 0.38 and conts[0].edges:
+            k = rng.choice(live)
+            if conts[k].edges:
+                e = rng.choice(conts[k].edges)
+                fops.append([k, ["W", e[0], new_weight(rng, e[3]), rng.choice([0, 0, 1, 2])]])
+        else:
+            k = rng.choice(live)
+            query(k, members[k], conts[k])
+    return case
+
+
+def enum_families():
+    """small scope of the shared-objects situation: three 3-node paths (two-way unit; one-way; a zero-weight and a
+    reverse-stored edge), B = A.sub_network(s0, c0) kept for every s0 and c0 in {0, 1, none}; then every ordered pair by
+    shortest_path on A, on B, and on A again"""
+    out = []
+    for g in ([[0, 0, 1, 1, 0], [1, 1, 2, 1, 0]], [[0, 0, 1, 1, 1], [1, 1, 2, 1, 1]], [[0, 0, 1, 0, 0], [1, 2, 1, 2, -1]],
+              [[0, 0, 1, 1, 0], [1, 1, 2, 1, 0], [2, 0, 2, 5, 0]]):
+        for s0 in range(3):
+            for c0 in ("0", "1", "none"):
+                case = {"kind": "fam-ex", "fam": 1, "n": 3, "order": [0, 1, 2], "edges": [list(e) for e in g],
+                        "pos": [[0, 0], [1, 0], [2, 1]], "fops": [[0, ["X", str(s0), c0]]]}
+                case["lines"] = [[case["pos"][e[1]], [e[1] + 1, 2], case["pos"][e[2]]] for e in g]
+                mem, _, _ = fam_split(case)
+                allp = lambda k, nodes: [[k, ["P", str(s), str(t), "none", 0]] for s in nodes for t in nodes]
+                sub = sorted(Content(mem[1]).order) if mem[1] is not None else []
+                case["fops"] += allp(0, range(3)) + allp(1, sub) + allp(0, range(3))
+                out.append(case)
+    return out
+
+
 class P(Prop):
     id = "C07"
     design_ref = "DESIGN.md section 5, C07"
@@ -630,7 +849,12 @@ class P(Prop):
     open_statements = ["Track.copy is modelled as the identity on (points, feature table): that the returned track shares no Obs / coordinate object with the network is not a theorem; the harness checks it by moving the points of every returned track (scribble stream) and validating the later answers of the session",
                        "arithmetic: every theorem holds for any addition satisfying WalkAdd (x <= x + w for w >= 0, and + monotone on the right; associativity, commutativity and cancellation are not used, see the R4 example), i.e. for the sums as the code rounds them; that IEEE-754 double addition satisfies WalkAdd is not proved in Lean (Float is opaque) — the float streams run the model at Float bit for bit",
                        "run_routing_backward on flags older than the last modification of the network (old antecedents, new weights / polylines): nothing is stated; proved: the loop ends (mut_never_diverges); what it returns is compared with the model only",
-                       "modifications through Network.simplify / toENUCoords / toGeoCoords (they replace every edge geometry / node coordinate) and routing on a sub_network (a second Network sharing the Node and Edge objects) are not in the model; the library has no call that removes an edge or a node",
+                       "modifications through Network.simplify / toENUCoords / toGeoCoords (they replace every edge geometry / node coordinate) are not in the model; the library has no call that removes an edge or a node",
+                       "families of networks sharing their Node and Edge objects (net.sub_network(s, cut) kept and used next to net, extracts of extracts; kinds fam / fam-ex): there is no Lean definition of the family for paths. "
+                       "The model side runs ONE msession (Model/GraphMut.lean) per network — sub_network being the run_routing_forward(s, cut=cut) it performs on the parent, the extract a Network() to which the kept Edge objects are "
+                       "added in the parent's edge order with the parent's Node objects — and the harness, not Lean, predicts which edges are kept (both ends at distance <= cut; TV.Graph.subEdges / TV.C06 have that in Lean for the distances). "
+                       "That the routing attributes written on the SHARED Node objects by another network's search are unobservable is proved for the labels (TV.C06.family_answers_as_private) and not for antecedent / antecedent_edge; "
+                       "run_routing_backward called when those attributes were last written by another network of the family is run but neither compared nor judged (nothing is stated about it)",
                        "getEdge(i).orientation = x on a built network: proved NOT to be read by routing (orientation_attribute_not_read) — the property read with the current attribute fails there; proposed finding %s (findings/C07.json), its inputs are generated once it is listed" % ORI_FROZEN]
     modelled = ("Network.addNode / addEdge (NODES with first registration winning, EDGES, NEXT_EDGES filled incrementally; proved to give the model's adjacency); "
                 "Network.run_routing_forward (as for C06) with __correctInputNode (node by id / Node object) and __resetFlags on the flags left by earlier searches; "
@@ -640,7 +864,8 @@ class P(Prop):
                 "the Network object as a state machine that is built and MODIFIED by the calls themselves (Model/GraphMut.lean): NODES / EDGES / NEXT_EDGES / edge geometries / node coordinates / "
                 "routing flags (and which nodes carry them) / output_dict as state, addNode, addEdge (also after searches), getEdge(i).weight / .orientation / .geom = ..., getNode(v).coord = ..., "
                 "the forward pass written over NEXT_EDGES[pere] and EDGES[edge_id] as the code has it (weights read at relaxation time, adjacency as addEdge filled it), KeyError / AttributeError of calls "
-                "naming unregistered / never-searched nodes")
+                "naming unregistered / never-searched nodes; "
+                "Network.sub_network (TOPOLOGIC) only as the calls it is made of: run_routing_forward(source, cut=cut) on the parent, then Network() + addEdge(e, e.source, e.target) for the kept edges — one model object per network of the family (see open_statements)")
     trusted = ["Track.copy (copy.deepcopy) is the identity on the model's immutable values",
                "priority_dict is modelled as extract-min by (priority, node id) (C06 proves the explicit heap equal to it)"]
     rule = (("the C06 graph space (all edge lists of length <= 2 on <= 3 nodes in quick, + all 3-edge multisets in thorough; random to 12 nodes / 40 edges, parallel edges of equal and of "
@@ -657,6 +882,9 @@ class P(Prop):
             "(build included) as one sequence of calls and the final content read back through the getters is compared; the oracle keeps its own replay of the content and judges every query against the "
             "content of that moment (geometry chain required whenever the polylines on the route join the positions of that moment); run_routing_backward on flags older than the last modification is "
             "compared with the model only. Orientation assignments on a built network are generated only once the finding %s is listed. "
+            "FAMILIES of networks that share their Node and Edge objects (kinds fam-ex / fam): net.sub_network(s, cut) is called and its result KEPT (up to three extractions, also of extracts), and paths / distances / forward + backward passes are asked on "
+            "all of them in any order — most of the time on the PARENT after an extraction, for pairs whose route runs through extracted edges —, run_routing_backward right after sub_network (the flags it left), the weight of a shared Edge "
+            "object assigned in between; every network is judged on its own content (an extract: the node / edge ids read off the returned object), whatever the other networks were asked in between. "
             "non-trivial = some call returns a path; tags count zero-weight edges, edges traversed against their stored direction, ties, op kinds, kinds of modification, whether a weight assignment changed a queried distance") % ORI_FROZEN)
 
     def setup(self):
@@ -673,6 +901,8 @@ class P(Prop):
              "the same 8067 graphs: a sequence of shortest_path calls on one object in which EVERY ordered pair of queries (s1,t1),(s2,t2) is consecutive (82 calls for 3 nodes)"]
         s.append("the same graphs with at least one edge: every ordered pair, then the weight of one edge is assigned another value of {0,1,2} on the built network, every ordered pair again (%s)"
                  % ("every edge and every other value: 32004 sessions" if tier == "thorough" else "one random edge and value per graph: 8064 sessions"))
+        s.append("families: four 3-node paths (two-way unit, one-way, with a zero-weight and a reverse-stored edge, with a long parallel chord) as network A, B = A.sub_network(s0, c0) kept, for every s0 and c0 in {0, 1, none}: "
+                 "every ordered pair by shortest_path on A, on B, on A again (36 families)")
         if tier == "thorough":
             s.append("all multisets of 3 edges on 1..3 nodes over the same alphabet (100482 multigraphs), edge / node insertion order shuffled, one random geometry each")
         return s
@@ -771,7 +1001,27 @@ class P(Prop):
         nmut, nmutf = (3000, 600) if tier == "quick" else (60000, 12000)
         for k in range(nmut + nmutf):
             out.append(self.mut_case(rng, fl=(k >= nmut)))
+        out += enum_families()
+        for _ in range(1200 if tier == "quick" else 25000):
+            out.append(random_family(rng, self.fam_geometry(rng)))
         return out
+
+    def fam_geometry(self, rng):
+        def geometry(g):
+            pos, lines = geometry_ext(rng, g["n"], g["edges"])
+            g["pos"], g["lines"] = pos, lines
+            if rng.random() < 0.25:
+                g["ids"] = "str"
+            r = rng.random()
+            if r < 0.25:
+                g["build"] = "fresh"
+            elif r < 0.45:
+                g["build"] = "lazy"
+            if rng.random() < 0.2:
+                g["af"] = 1
+            if rng.random() < 0.3:
+                g["scribble"] = 1
+        return geometry
 
     def mut_case(self, rng, fl=False):
         """a network that is modified between the routing calls"""
@@ -825,6 +1075,8 @@ class P(Prop):
             e[3] = w
 
     def describe(self, case):
+        if case.get("fam"):
+            return self.describe_fam(case)
         edges = nc.expand(case)
         n = case["n"]
         d = nc.floyd_warshall(n, edges)
@@ -859,6 +1111,8 @@ class P(Prop):
         return False
 
     def nontrivial(self, case):
+        if case.get("fam"):
+            return any(M is not None and self.nontrivial(M) for M in fam_split(case)[0])
         last = None
         for o, (view, stale) in zip(ops_of(case), timeline(case)):
             if o[0] in MUTATIONS:
@@ -901,6 +1155,8 @@ class P(Prop):
         return res
 
     def impl(self, case):
+        if case.get("fam"):
+            return self.impl_fam(case)
         n = case["n"]
         Network, Node, Edge, Track, Obs, ENUCoords, ObsTime = self.mods
         ops = ops_of(case)
@@ -917,71 +1173,83 @@ class P(Prop):
                      "ends": [[einv.get(k, repr(k)), inv.get(e.source.id, repr(e.source.id)), inv.get(e.target.id, repr(e.target.id)), e.orientation,
                                e.source is net.NODES[e.source.id] and e.target is net.NODES[e.target.id]] for k, e in net.EDGES.items()]}
 
-            def arg(a):
-                if a == "-":
-                    return None
-                if a[0] == "o" and nid(int(a[1:])) in net.NODES:
-                    return net.NODES[nid(int(a[1:]))]
-                if a[0] == "o":
-                    return mk(int(a[1:]))
-                if a[0] == "f":
-                    return mk(int(a[1:]))
-                return nid(int(a))
-
+            arg = self.mkarg(net, nid, mk)
             mut = bool(case.get("mut"))
-            fl = bool(case.get("float"))
             for op in ops:
-                kind = op[0]
-                if kind in MUTATIONS:
-                    out.append({"op": kind, "r": self.modify(net, case, op, nid, eid, inv, einv)})
-                    continue
-                if mut:
-                    # a call that names a node the network does not have raises KeyError (only shrunk cases do that)
-                    missing = [a for a in op[1:3] if isinstance(a, str) and a != "-" and nid(idx(a)) not in net.NODES]
-                    if missing:
-                        try:
-                            self.call(net, op, arg, od, fl)
-                            out.append({"op": "F"} if kind == "F" else {"op": kind, "err": "no KeyError"})
-                        except KeyError:
-                            out.append({"op": kind, "err": "key"})
-                        continue
-                if kind == "B":
-                    try:
-                        trk = net.run_routing_backward(arg(op[1]))
-                    except AttributeError:
-                        out.append({"op": "B", "err": "attr"})
-                        continue
-                    out.append(dict(self.render(net, case, trk, idx(op[1]), nid, inv, einv), op="B"))
-                    continue
-                kw = {}
-                if op[3] != "none":
-                    kw["cut"] = cutpy(op[3], bool(case.get("float")))
-                if op[4]:
-                    kw["output_dict"] = od
-                if kind == "P":
-                    trk = net.shortest_path(arg(op[1]), arg(op[2]), **kw)
-                    out.append(dict(self.render(net, case, trk, idx(op[2]), nid, inv, einv), op="P"))
-                elif kind == "D":
-                    v = net.shortest_distance(arg(op[1]), arg(op[2]), **kw)
-                    if op[2] == "-":
-                        out.append({"op": "D", "vals": ["none" if x >= 1e299 else nc.tok(Fraction(x)) for x in v]})
-                    else:
-                        out.append({"op": "D", "val": "none" if v == -1 else nc.tok(Fraction(v))})
+                if op[0] in MUTATIONS:
+                    out.append({"op": op[0], "r": self.modify(net, case, op, nid, eid, inv, einv)})
                 else:
-                    net.run_routing_forward(arg(op[1]), arg(op[2]), **kw)
-                    out.append({"op": "F"})
+                    out.append(self.route_op(net, case, op, arg, od, nid, inv, einv, mut))
             dct = sorted([inv.get(k[0], -1), inv.get(k[1], -1), nc.tok(Fraction(v))] for k, v in od.items())
             if mut:
-                # the content of the network after the calls, read back through its public getters
-                xy = lambda c: [nc.tok(Fraction(c.getX())), nc.tok(Fraction(c.getY()))]
-                ids = list(net.getNodesId())
-                built = {"next": [[einv.get(i, repr(i)) for i in net.getNextEdges(nid(v))] if nid(v) in ids else [] for v in range(n)],
-                         "pos": [xy(net.getNode(nid(v)).coord) if nid(v) in ids else None for v in range(n)],
-                         "order": [inv.get(k, repr(k)) for k in ids],
-                         "edges": [[einv.get(k, repr(k)), inv.get(net.getEdge(k).source.id, -1), inv.get(net.getEdge(k).target.id, -1),
-                                    nc.tok(Fraction(net.getEdge(k).weight)), net.getEdge(k).orientation] for k in net.getEdgesId()],
-                         "geoms": [[xy(o.position) for o in net.getEdge(k).geom] for k in net.getEdgesId()]}
+                built = self.readback(net, n, nid, inv, einv)
         return {"ops": out, "dict": dct, "net": built}
+
+    def mkarg(self, net, nid, mk):
+        """node argument of a call on `net`: "3" the id, "o3" the network's own Node object, "f3" a fresh Node object"""
+        def arg(a):
+            if a == "-":
+                return None
+            if a[0] == "o" and nid(int(a[1:])) in net.NODES:
+                return net.NODES[nid(int(a[1:]))]
+            if a[0] == "o":
+                return mk(int(a[1:]))
+            if a[0] == "f":
+                return mk(int(a[1:]))
+            return nid(int(a))
+        return arg
+
+    def route_op(self, net, case, op, arg, od, nid, inv, einv, mut):
+        """one routing call (P / D / F / B) on `net`; the record of what it returned"""
+        kind = op[0]
+        fl = bool(case.get("float"))
+        if mut:
+            # a call that names a node the network does not have raises KeyError (only shrunk cases do that)
+            missing = [a for a in op[1:3] if isinstance(a, str) and a != "-" and nid(idx(a)) not in net.NODES]
+            if missing:
+                try:
+                    self.call(net, op, arg, od, fl)
+                    return {"op": "F"} if kind == "F" else {"op": kind, "err": "no KeyError"}
+                except KeyError:
+                    return {"op": kind, "err": "key"}
+        if kind == "B":
+            try:
+                trk = net.run_routing_backward(arg(op[1]))
+            except AttributeError:
+                return {"op": "B", "err": "attr"}
+            except KeyError:
+                if not case.get("fam"):
+                    raise
+                # (family) the antecedents on the shared Node objects were written by a search of ANOTHER network and name
+                # an edge this network does not hold: a situation nothing is stated about (`skip` of fam_split)
+                return {"op": "B", "err": "key"}
+            return dict(self.render(net, case, trk, idx(op[1]), nid, inv, einv), op="B")
+        kw = {}
+        if op[3] != "none":
+            kw["cut"] = cutpy(op[3], fl)
+        if op[4]:
+            kw["output_dict"] = od
+        if kind == "P":
+            trk = net.shortest_path(arg(op[1]), arg(op[2]), **kw)
+            return dict(self.render(net, case, trk, idx(op[2]), nid, inv, einv), op="P")
+        if kind == "D":
+            v = net.shortest_distance(arg(op[1]), arg(op[2]), **kw)
+            if op[2] == "-":
+                return {"op": "D", "vals": ["none" if x >= 1e299 else nc.tok(Fraction(x)) for x in v]}
+            return {"op": "D", "val": "none" if v == -1 else nc.tok(Fraction(v))}
+        net.run_routing_forward(arg(op[1]), arg(op[2]), **kw)
+        return {"op": "F"}
+
+    def readback(self, net, n, nid, inv, einv):
+        """the content of a network after the calls, read back through its public getters"""
+        xy = lambda c: [nc.tok(Fraction(c.getX())), nc.tok(Fraction(c.getY()))]
+        ids = list(net.getNodesId())
+        return {"next": [[einv.get(i, repr(i)) for i in net.getNextEdges(nid(v))] if nid(v) in ids else [] for v in range(n)],
+                "pos": [xy(net.getNode(nid(v)).coord) if nid(v) in ids else None for v in range(n)],
+                "order": [inv.get(k, repr(k)) for k in ids],
+                "edges": [[einv.get(k, repr(k)), inv.get(net.getEdge(k).source.id, -1), inv.get(net.getEdge(k).target.id, -1),
+                           nc.tok(Fraction(net.getEdge(k).weight)), net.getEdge(k).orientation] for k in net.getEdgesId()],
+                "geoms": [[xy(o.position) for o in net.getEdge(k).geom] for k in net.getEdgesId()]}
 
     def call(self, net, op, arg, od, fl):
         kw = {}
@@ -1051,8 +1319,132 @@ class P(Prop):
             return "key"
         return "ok"
 
+    # ---------------------------------------------------------------- families (networks sharing Node / Edge objects)
+    def describe_fam(self, case):
+        fo = case["fops"]
+        members, where, conts = fam_split(case)
+        after = False       # a path asked on a network after one of ITS edges went into an extract of it
+        seenx = set()
+        for k, o in fo:
+            if o[0] == "X":
+                seenx.add(k)
+            elif o[0] == "P" and k in seenx:
+                after = True
+        return {"kind": case["kind"], "n": case["n"] if case["n"] <= 4 else "5-8", "m": len(case["edges"]) if len(case["edges"]) <= 3 else "4-10" if len(case["edges"]) <= 10 else "11-40",
+                "networks": len(members), "extract_sizes": ",".join("-" if M is None else str(len(M["edges"])) for M in members[1:]),
+                "path_on_parent_after_extraction": after, "path_on_extract": any(o[0] == "P" and k > 0 for k, o in fo),
+                "backward_after_sub_network": any(a[1][0] == "X" and b[1][0] == "B" and a[0] == b[0] for a, b in zip(fo, fo[1:])),
+                "modifications": "W" if any(o[0] == "W" for _, o in fo) else "-",
+                "ids": case.get("ids", "int"), "build": case.get("build", "plain"), "af": bool(case.get("af")), "scribble": bool(case.get("scribble")),
+                "op_kinds": "".join(sorted({o[0] for _, o in fo})), "nops": len(fo) if len(fo) <= 3 else "4-9" if len(fo) <= 9 else "10-20" if len(fo) <= 20 else ">20"}
+
+    def fam_empty(self, M):
+        """no call at all is made on this network (the driver's msession wants at least one)"""
+        c = build_calls(M)
+        return not (c["pre"] or c["post"] or M["edges"] or M["ops"])
+
+    def impl_fam(self, case):
+        n = case["n"]
+        fo = case["fops"]
+        out = []
+        with nc.time_limit(5 if n <= 4 and len(fo) <= 20 else 20):
+            net, nid, eid, mk = build_net(self.mods, case)
+            inv = {nid(v): v for v in range(n)}
+            einv = {eid(e[0]): e[0] for e in nc.expand(case)}
+            nets, ods = [net], [{}]
+            for (k, op) in fo:
+                if not (0 <= k < len(nets)) or nets[k] is None:
+                    out.append({"op": op[0], "err": "member"})
+                    if op[0] == "X":
+                        nets.append(None); ods.append({})
+                    continue
+                N = nets[k]
+                arg = self.mkarg(N, nid, mk)
+                if op[0] == "X":
+                    try:
+                        sub = N.sub_network(arg(op[1]), 1e300 if op[2] == "none" else cutpy(op[2]), verbose=False)
+                    except KeyError:
+                        out.append({"op": "X", "err": "key"})
+                        nets.append(None); ods.append({})
+                        continue
+                    nets.append(sub); ods.append({})
+                    out.append({"op": "X", "nodes": [inv.get(i, repr(i)) for i in sub.getNodesId()], "edges": [einv.get(i, repr(i)) for i in sub.getEdgesId()]})
+                elif op[0] in MUTATIONS:
+                    out.append({"op": op[0], "r": self.modify(N, case, op, nid, eid, inv, einv)})
+                else:
+                    out.append(self.route_op(N, case, op, arg, ods[k], nid, inv, einv, True))
+            dicts = [sorted([inv.get(q[0], -1), inv.get(q[1], -1), nc.tok(Fraction(v))] for q, v in od.items()) for od in ods]
+            built = [None if N is None else self.readback(N, n, nid, inv, einv) for N in nets]
+        return {"fam": out, "dicts": dicts, "nets": built}
+
+    def compare_fam(self, case, impl_out, model_out):
+        members, where, _ = fam_split(case)
+        got = [o for (k, op), o in zip(case["fops"], impl_out["fam"]) if op[0] == "X"]
+        if len(impl_out["fam"]) != len(case["fops"]) or len(model_out) != len(members):
+            return "%d results for %d calls on the family; model has %d networks, expected %d" % (len(impl_out["fam"]), len(case["fops"]), len(model_out), len(members))
+        for j, (M, g) in enumerate(zip(members[1:], got)):
+            if (M is None) != ("err" in g):
+                return "extraction %d: impl=%s, predicted %s" % (j, g, "an error" if M is None else "a network")
+        for k, (M, x, y) in enumerate(zip(members, fam_project(case, impl_out, members, where), model_out)):
+            if M is None:
+                continue
+            m = self.compare(M, x, y)
+            if m:
+                return "network %d%s: %s" % (k, "" if k == 0 else " (extract of network %d, predicted edges %s)" % (M["parent"], [e[0] for e in M["edges"]]), m)
+        return None
+
+    def spec_fam(self, case, out):
+        fo = case["fops"]
+        if len(out["fam"]) != len(fo):
+            return "%d results for %d calls" % (len(out["fam"]), len(fo))
+        reported = [None if "err" in o else o for (k, op), o in zip(fo, out["fam"]) if op[0] == "X"]
+        members, where, _ = fam_split(case, reported)
+        xs = [j for j, (k, op) in enumerate(fo) if op[0] == "X"]
+        for k, (M, x) in enumerate(zip(members, fam_project(case, out, members, where))):
+            if M is None:
+                continue
+            m = self.spec(M, x)
+            if m:
+                if k == 0:
+                    who = "the network as built"
+                else:
+                    kp, op = fo[xs[k - 1]]
+                    who = "network %d = network %d.sub_network(%s, %s), holding the edges %s" % (k, kp, op[1], op[2], [e[0] for e in M["edges"]])
+                calls = ["%s%s" % (o[0], tuple(o[1:3])) + ("->network %d" % (1 + xs.index(j)) if o[0] == "X" else "") for j, (kk, o) in enumerate(fo) if kk == k]
+                return "%s; its calls in order (X = sub_network, result kept and used): %s: %s" % (who, " ".join(calls), m)
+        return None
+
+    def shrink_fam(self, case):
+        fo = case["fops"]
+        for j in range(len(fo)):
+            if fo[j][1][0] == "X":
+                # an extraction can go when its result is the last network and is never used
+                nb = sum(1 for _, o in fo[:j] if o[0] == "X") + 1
+                if any(o[0] == "X" for _, o in fo[j + 1:]) or any(k == nb for k, _ in fo):
+                    continue
+            yield dict(case, fops=fo[:j] + fo[j + 1:])
+        for j, (k, o) in enumerate(fo):
+            simp = [o[0]] + [a.lstrip("of") if isinstance(a, str) and a[:1] in "of" else a for a in o[1:]]
+            if o[0] in "PDF" and simp[4]:
+                simp[4] = 0
+            if o[0] == "W" and o[3]:
+                simp[3] = 0
+            if simp != o:
+                yield dict(case, fops=fo[:j] + [[k, simp]] + fo[j + 1:])
+        for key in ("ids", "build", "af", "scribble"):
+            if key in case:
+                yield {k: v for k, v in case.items() if k != key}
+        for c in nc.shrink_graph(case):
+            if c["n"] == case["n"]:
+                yield c
+        for k, l in enumerate(case["lines"]):
+            if len(l) > 2:
+                yield dict(case, lines=case["lines"][:k] + [[l[0], l[-1]]] + case["lines"][k + 1:])
+
     # ---------------------------------------------------------------- model
     def requests(self, case):
+        if case.get("fam"):
+            return [self.mut_requests(M)[0] for M in fam_split(case)[0] if M is not None and not self.fam_empty(M)]
         if case.get("mut"):
             return self.mut_requests(case)
         edges = nc.expand(case)
@@ -1161,6 +1553,15 @@ class P(Prop):
         return {"ops": res, "dict": sorted([int(e[0]), int(e[1]), num(e[2])] for e in entries), "net": built}
 
     def decode(self, case, replies):
+        if case.get("fam"):
+            out, it = [], iter(replies)
+            n = case["n"]
+            for M in fam_split(case)[0]:
+                if M is not None and self.fam_empty(M):      # Network() on which nothing was called (an extract without edges)
+                    out.append({"ops": [], "dict": [], "net": {"next": [[] for _ in range(n)], "pos": [None] * n, "order": [], "edges": [], "geoms": []}})
+                else:
+                    out.append(None if M is None else self.mut_decode(M, [next(it)]))
+            return out
         if case.get("mut"):
             return self.mut_decode(case, replies)
         r = replies[1]
@@ -1211,6 +1612,9 @@ class P(Prop):
           * output_dict of a search stopped at a target: which nodes at the target's distance were recorded before it."""
         if "err" in impl_out:
             return None if impl_out["err"] == "err:Skipped" else "implementation failed: %s" % impl_out["err"]
+        if case.get("fam"):
+            return self.compare_fam(case, impl_out, model_out)
+        skip = case.get("skip", ())
         a, b = impl_out["ops"], model_out["ops"]
         if len(a) != len(b):
             return "impl has %d results, model %d" % (len(a), len(b))
@@ -1238,6 +1642,8 @@ class P(Prop):
         for k, (op, x, y) in enumerate(zip(ops, a, b)):
             bad = "op %d %s: impl=%s model=%s" % (k, op, x, y)
             view[0], stale = tl[k]
+            if k in skip:
+                continue        # (family) a backward pass on routing attributes written by another network's search
             if op[0] in MUTATIONS:
                 if x != y:
                     return bad
@@ -1433,8 +1839,11 @@ class P(Prop):
             if out["err"] == "err:Skipped":
                 return None     # not evaluated (see netcommon.time_limit); the cases that timed out are the failures
             return "the implementation failed: %s %s" % (out["err"], out.get("detail", ""))
+        if case.get("fam"):
+            return self.spec_fam(case, out)
         n = case["n"]
         ops = ops_of(case)
+        skip = case.get("skip", ())
         if len(out["ops"]) != len(ops):
             return "%d results for %d calls" % (len(out["ops"]), len(ops))
         tl = timeline(case, frozen_ori)
@@ -1442,6 +1851,8 @@ class P(Prop):
         for k, (op, o) in enumerate(zip(ops, out["ops"])):
             pre = "call %d: " % k if ("ops" in case or case.get("seq")) else ""
             view, stale = tl[k]
+            if k >= case.get("blind_from", len(ops)):
+                break             # (family) an Edge object this network shares was modified through another network
             if op[0] in MUTATIONS:
                 continue          # the statement is about what the routing calls return
             if case.get("mut"):
@@ -1451,7 +1862,7 @@ class P(Prop):
                     continue
             d = view.d
             if op[0] == "B":
-                if last is None or stale:
+                if last is None or stale or k in skip:
                     continue      # backward pass before any search, or on a network modified since the search: nothing is stated
                 if "err" in o:
                     return "%srun_routing_backward(%s) after a search raised %s" % (pre, op[1], o["err"])
@@ -1489,6 +1900,9 @@ class P(Prop):
 
     # ---------------------------------------------------------------- shrinking / search
     def shrink(self, case):
+        if case.get("fam"):
+            yield from self.shrink_fam(case)
+            return
         ops = case.get("ops")
         if ops is not None:
             for k in range(len(ops)):
@@ -1529,6 +1943,12 @@ class P(Prop):
                     yield dict(case, lines=case["lines"][:k] + [[l[0], l[-1]]] + case["lines"][k + 1:])
 
     def mutate(self, case, rng):
+        if case.get("fam"):
+            # the same family with the calls on the extracts left out / with one more extraction in front
+            fo = case["fops"]
+            if any(o[0] == "X" for _, o in fo):
+                yield dict(case, fops=[[k, o] for k, o in fo if k == 0])
+            yield dict(case, fops=[[0, ["X", str(case["order"][0]), "none"]]] + [[k if k == 0 else k + 1, o] for k, o in fo])
         c = nc.explicit(case)
         for k, e in enumerate(c["edges"]):
             yield dict(c, edges=c["edges"][:k] + [e[:3] + [0, e[4]]] + c["edges"][k + 1:])
